@@ -236,7 +236,7 @@ def direct_oracle(cfg, rs, tier, n_tests, want_sampling=True):
     marginal consistency, mpe/sample shape + evidence."""
     import torch
     n = cfg.n; m = cfg.m
-    stats = dict(mass=0, marg=0, mpe=0, sample_rows=0, gof=0)
+    stats = dict(mass=0, marg=0, mpe=0, sample_rows=0, gof=0, state_dict_twins=0)
     with torch.no_grad():
         ll0 = m(torch.full((1, n), float("nan")))
     if not np.all(np.abs(ll0.numpy()) < 1e-4):
@@ -290,6 +290,12 @@ def direct_oracle(cfg, rs, tier, n_tests, want_sampling=True):
     if bad:
         return bad, stats
     cfg.mpe_rows, cfg.mpe_ys, cfg.mpe_out = rows, ys, out.numpy()
+    # a model reached through a checkpoint: a twin with the same architecture but another region graph, after
+    # load_state_dict, IS the original model (same distribution), so it must answer every query identically
+    bad = twin_after_load(cfg, x, ys, out)
+    stats["state_dict_twins"] += 1
+    if bad:
+        return bad, stats
     # sample
     N = 2000
     gof = want_sampling and cfg.kind == "bern" and n <= 6
@@ -320,6 +326,34 @@ def direct_oracle(cfg, rs, tier, n_tests, want_sampling=True):
                                 cls=cls, cell=allrows[j], frequency=float(freq[j]), probability=float(L[j, cls]),
                                 bound=eps, draws=N), stats
     return None, stats
+
+
+def twin_after_load(cfg, x, ys, out):
+    import torch
+    from deeprob.spn.models.ratspn import BernoulliRatSpn, GaussianRatSpn
+    cls_ = BernoulliRatSpn if cfg.kind == "bern" else GaussianRatSpn
+    a = cfg.m
+    try:
+        b = cls_(cfg.n, out_classes=cfg.classes, rg_depth=cfg.d, rg_repetitions=cfg.reps, rg_batch=cfg.batch,
+                 rg_sum=cfg.sums, random_state=np.random.RandomState(cfg.seed + 7919))
+        b.load_state_dict(a.state_dict())
+        b.eval()
+        with torch.no_grad():
+            la, lb = a(x), b(x)
+            ob = b.mpe(x.clone(), y=torch.tensor(ys))
+            torch.manual_seed(cfg.seed + 5); sa = a.sample(500, y=torch.zeros(500, dtype=torch.long))
+            torch.manual_seed(cfg.seed + 5); sb = b.sample(500, y=torch.zeros(500, dtype=torch.long))
+    except Exception as e:
+        return dict(what="state_dict transfer to a same-architecture model raised", error=f"{type(e).__name__}: {e}")
+    if not torch.allclose(la, lb, rtol=1e-5, atol=1e-6, equal_nan=True):
+        return dict(what="model restored from state_dict gives different log-likelihoods")
+    if not torch.equal(ob, out):
+        j = int((ob != out).any(dim=1).nonzero()[0])
+        return dict(what="model restored from state_dict answers MPE differently from the model it was loaded from "
+                         "(same distribution, different completion)", row=x[j].tolist(), original=out[j].tolist(), restored=ob[j].tolist())
+    if not torch.equal(sa, sb):
+        return dict(what="model restored from state_dict samples differently from the original under the same generator state")
+    return None
 
 
 def check_completion(cfg, x, out, what):
@@ -411,7 +445,7 @@ def main(tier, seed, replay=None):
     n_gof = sum(c.classes for c in cfgs if c.kind == "bern" and c.n <= 6)
     dist = dict(features={}, depth={}, padded=0, kinds={}, nan_cells={}, exhaustive_configs=0)
     built = []
-    oracle_stats = dict(mass=0, marg=0, mpe=0, sample_rows=0, gof=0)
+    oracle_stats = dict(mass=0, marg=0, mpe=0, sample_rows=0, gof=0, state_dict_twins=0)
     n_viol = 0
     for cfg in cfgs:
         try:
